@@ -98,6 +98,13 @@ Proof.
   intros c Hc'. apply (call_documented_sound c_aliases c_protos (rcls r) rps cfs c). apply C. exact Hc'.
 Qed.
 
+(* every getter of Entry and of its child classes returns the gd_entry_t member README.cxx / gd_entry(3) name for it
+   (38 inline getters); Entry::Threshold has a two-statement body (returns E.u.window.threshold or a zero triplet):
+   its text is pinned in WrapperDoc.v and it is exercised by the harness *)
+Theorem getters_return_documented_member :
+  getters_bad hdr_table = [("Entry", "Threshold")]%string /\ getters_checked hdr_table = 38%nat.
+Proof. vm_compute. split; reflexivity. Qed.
+
 (* ---- dirfile2ascii ---- *)
 Local Open Scope Z_scope.
 Theorem frames_visited : forall nf skip_opt fuel k, (Z.to_nat (nf - 0) <= fuel)%nat ->
